@@ -494,7 +494,8 @@ def event_arms(prog, fa):
             if len(missing) == 1:
                 arms[missing[0]] = t['o']
             elif missing:
-                raise AnchorMissing('process_event arms for %s' % missing)
+                continue  # a partial match on the event (e.g. an inlined accessor): not the dispatch
+            fa._dispatch_block = b
             return arms
     raise AnchorMissing('process_event: switch on TriggerEvent discriminant')
 
@@ -609,6 +610,11 @@ def rule_dispatch_discipline(ctx, rep, rid, arms_of_interest):
                           any(f[0] == 'notvariant' and root_of(f[1]) == ('param', 2) for f in S))
         rep.ob(rid, fn, 'no-return-before-dispatch', ok and bool(st), '' if ok else 'a path returns without having switched on the event kind: ' + show_facts(w))
     arms = event_arms(prog, fa)
+    # ... and "switched on the event kind" means the dispatch itself, not a test inside some accessor of the event
+    db = getattr(fa, '_dispatch_block', None)
+    for r in fa.cfg.returns:
+        rep.ob(rid, fn, 'dispatch-dominates-every-return', db is not None and fa.cfg.dominates(db, r),
+               'the match over all TriggerEvent variants is on every path to the return')
     acct_fields = ('padding_sent_packets', 'normal_sent_packets', 'padding_sent', 'normal_sent', 'blocking_active', 'blocking_started', 'blocking_duration')
     for var in arms_of_interest:
         head = arms.get(var)
